@@ -512,7 +512,9 @@ func (server *Server) listen(sock socket.Socket, address string, New NewServerCo
 			ctx.codec = svrctx.codec
 			svrctx.recving.Lock()
 			data, err := svrctx.messages.ReadMessage(ctx.buffer)
-			if len(data) > 0 {
+			// a message of zero bytes is a request too (with the built-in header: sequence
+			// number 0, no method name, no arguments), as it is for ServeCodec
+			if err == nil {
 				ctx.data = data
 				if server.directIO {
 					server.ServeRequest(ctx, svrctx.recving, svrctx.wg, svrctx.sched, nil, svrctx.streams)
@@ -523,7 +525,7 @@ func (server *Server) listen(sock socket.Socket, address string, New NewServerCo
 				}
 			}
 			svrctx.recving.Unlock()
-			if len(data) == 0 {
+			if err != nil {
 				server.putUpgrade(ctx.upgrade)
 				if server.bufferPool != nil && cap(ctx.buffer) > 0 {
 					server.bufferPool.PutBuffer(ctx.buffer)
